@@ -2,8 +2,11 @@
    bool/option/list/prod/unit/sumbool map to OCaml's; nat, positive, Z, Q stay the
    extracted inductive types (no Extract Constant / Extract Inductive of our own). *)
 From Coq Require Import Extraction ExtrOcamlBasic QArith List.
-From VOPy Require Import QVec Cone Pareto ParetoQ.
+From VOPy Require Import QVec Cone Pareto ParetoQ Rect Ellipsoid FM RectCover Pessimistic.
 Extraction Language OCaml.
 Extraction "model.ml"
   QVec.dot QVec.inside QVec.dominates Cone.inside_batch Cone.eye
-  ParetoQ.pareto_fast_q ParetoQ.pareto_naive_q ParetoQ.pareto_ok ParetoQ.pareto_once ParetoQ.pareto_all.
+  ParetoQ.pareto_fast_q ParetoQ.pareto_naive_q ParetoQ.pareto_ok ParetoQ.pareto_once ParetoQ.pareto_all
+  Rect.rect_dom Rect.rect_dom_margin Rect.mkbox Rect.rect_update Rect.intersect Rect.check_intersection Rect.center Rect.slack_shape_ok
+  Ellipsoid.ell_dom Ellipsoid.cov_witness_ok Ellipsoid.cov_separator_ok
+  RectCover.rect_cov Pessimistic.check_dominates Pessimistic.in_ext_polytope Pessimistic.line_seg_pt_intersect_at_dim.
